@@ -606,8 +606,9 @@ MANIFEST = {
              'on (|deque|, |deque|+1-unchanged_loop_count)); connect_forest (on success the mapping target->source is a '
              'function whose graph is exactly the connections, acyclic, every chain ends at a variable with no `in` '
              'interface, roots = non-targets, assigned_to lies on the chain; the while loop of symbol_generator computes '
-             'the root); direction_swap + directAll_swap (component_1/2 order irrelevant for connections the interface '
-             'rules allow; proved counterexample for non-adjacent components), connect_perm / conns_order_irrelevant '
+             'the root); direction_swap + directAll_swap (component_1/2 order irrelevant for every connection between declared '
+             'variables, accepted or refused, after the two C17 repairs of _determine_connection_direction; '
+             'direction_nonadjacent_refused), connect_perm / conns_order_irrelevant '
              '(roots independent of connection order when both orders resolve); eval_rename (substitution lemma); '
              'load_sound / load_sound_numeric / load_complete: with physical (SI) valuations, every solution of the flat '
              'model read through root solves the document (all component equations, all connection equalities, constants) '
